@@ -13,19 +13,21 @@ import re
 import vf
 
 META = {
-    "text": "30 theorems (Coq, no axioms) over a literal model of stateBuffer and of StateDB / storage cache / ContractState and "
+    "text": "31 theorems (Coq, no axioms) over a literal model of stateBuffer and of StateDB / storage cache / ContractState and "
             "AccountState handles (pointer identity) / BlockState / ChainStateDB.  FULL: the index invariant holds after every valid run "
             "and excludes every panic; reads = latest surviving write; rollback restores the log for any nesting; export/stage sorted, "
             "duplicate free, map-order independent, functions of the surviving writes; every non-panicking operation (31 kinds) keeps "
             "the block invariant; handles are copies until PutState (all setters, in every reachable state); "
-            "SetRoot/Revert, reopen at a root, Apply, StateDB.Rollback specs.  FULL UNDER A STATED DISCIPLINE (run_ok: valid nesting, "
+            "SetRoot/Revert, reopen at a root, Apply, StateDB.Rollback specs; a failed Update (a storage cannot be folded in) leaves the "
+            "account buffer as before, in any map order.  FULL UNDER A STATED DISCIPLINE (run_ok: valid nesting, "
             "no Update/Commit inside the span, mutations only through objects not in the buffer): block revert restores accounts and "
             "every staged storage.  REFUTED without it (witness theorems, each reproduced on /repo every run): C12:update-then-rollback, "
             "C12:mutate-after-put, C12:setcode-aliases-buffer (F48a-c, API contracts the node respects), C12:clone-drops-sourcehash (F47).  "
             "Tie: in-package engine of package state drives the real API on the same traces as the model (vm_compute); all accounts, "
             "handles, cached storages (revision, export(), stacks, root), account buffer, handle states and the state root compared after "
             "every step; direct predicates on the implementation alone: revert restores, reverted writes reach neither root nor reopened "
-            "state (twin trace), reads = explicit frame-stack specification, caller-side operations invisible, no panic.",
+            "state (twin trace), reads = explicit frame-stack specification, caller-side operations invisible, no panic; fault family: Update with storages whose root node is missing (failed Update "
+            "changes nothing; predicate only, the model side is the theorem).",
     "note": "Trusted: Coq kernel + vm_compute; no axioms, no translator; engine harness/engines/statebuf (+ read-only accessor shim in "
             "state/statedb), generator and specification state in this script.  Modelled, not verified: tries are finite maps (root = "
             "injective function of the map: C10, SHA-256); byte strings are ids; the DB below db.DB.  Assumptions of the theorems: rollback "
